@@ -1,5 +1,5 @@
 //! unit: u09b
-//! properties: C09 C10
+//! properties: C09 C10 C02 C04
 //! note: ChannelManager side of a completed persistence (channelmanager.rs channel_monitor_updated / try_resume_channel_post_monitor_update / handle_initial_monitor): a completion report retires exactly the in-flight updates up to the reported id (a report without id retires none) and nothing is resumed while any update of the channel remains in flight or while the channel is not waiting for one; a channel that still has blocked updates is not resumed (its held messages stay held) though the queued actions are handed over; the actions of a closed channel are released then; the initial monitor resumes the channel only when its persistence completed; during start-up an update is not handed to the Watch but queued as a background event naming this channel and this very update, and counts as neither completed nor all-complete
 //! trusted: R15 (deep slices): channel_monitor_updated (manager): the statements computing remaining_in_flight (retain written as a loop, R6e, predicate carried verbatim), the early return, the awaiting-update gate, the closed-channel branch's release; try_resume_channel_post_monitor_update: the blocked test, the channel_update condition, the needs_persist expression and its later `|=`; handle_new_monitor_update_locked_actions_handled_by_caller: the start-up branch; each verbatim as a function of the values it reads; `needs_persist |= E` on bools is written `{ let more = E; needs_persist || more }` (Verus has no `|` on bools; E is evaluated unconditionally as in the source); handle_initial_monitor is extracted whole over a recorder for try_resume_channel_post_monitor_update (R5: `&self` written `&mut self`)
 //! trusted: R15/R6e (deep slice of handle_monitor_update_completion_actions, PaymentClaimed arm): the inner `retain` over channels_without_preimage (its test carried verbatim) and the loop that frees the claim's channels as index loops with invariants against Seq::filter; PublicKey / ChannelId compare structurally; the outer retain over the channel's blockers and the map lookups are not sliced
